@@ -115,7 +115,7 @@ def h_iterate(E, shape):
     other = Iterate(user, params, arr(x2), arr(y2))
     dd = it.dist(other)
     ss = sum(((a - b) * (a - b) for a, b in zip(x + y, x2 + y2)), 0.0)
-    E.prove(land(dd >= 0, dd * dd == ss), "C13.dist")
+    E.prove(land(dd >= 0, common.close(dd * dd, ss)), "C13.dist")
     # clipped: inside the box, identity if already inside
     cl = it.clipped()
     E.prove(common.in_box(items(cl.x), lb, ub), "C13.clipped_in_box")
